@@ -44,6 +44,16 @@ def body(ctx):
         ctx.cov["trace_families"][name] = stats[0]
         if len(ctx.cov["samples"]) < 6:
             ctx.cov["samples"] += [events[0], events[1], events[-1]]
+        if name == flavours[0][0]:
+            def corrupt(e, rng):   # binding probe: one geometric quantity of one record off by one / doubled
+                fs = [k for k in ("size", "sizeof_batch", "batch_align", "mask_lanes", "alignment", "lanes", "as_int_lanes", "sret_lanes", "spos") if isinstance(e.get(k), int) and e[k] > 0]
+                if not fs:
+                    return None
+                c = dict(e)
+                f = rng.choice(fs)
+                c[f] = e[f] * 2 if rng.random() < 0.5 else e[f] + 1
+                return c
+            lanes.stateful_probe(ctx, "T_Geometry.tla", events, "geo_" + name, corrupt)
         for rj in rejects[:10]:
             lines = [json.dumps(events[int(rj["id"]) - 1]), "# " + json.dumps(rj)]
             pth = ctx.write_replay("geom-%s-%s" % (name, rj["id"]), lines)
